@@ -221,6 +221,24 @@ class NdiStub:
         return out.view(A.SymArray)
 
 
+class HybridNdi:
+    """real scipy.ndimage on concrete data; map_coordinates on a symbolic coordinate mesh returns a
+    shape-only array (its values are data dependent)."""
+
+    def __getattr__(self, name):
+        from scipy import ndimage
+
+        return getattr(ndimage, name)
+
+    def map_coordinates(self, input, coordinates, *a, **k):
+        if hasattr(coordinates, "_sampled_result"):
+            rec = Sampled("map_coordinates", input, coordinates=coordinates, **k)
+            return coordinates._sampled_result(rec)
+        from scipy import ndimage
+
+        return ndimage.map_coordinates(input, coordinates, *a, **k)
+
+
 def make_backend(api_module, np_shim, ndi=None, fft=None):
     """An instance of the *real* Backend class (loaded from source) over the shims."""
     B = api_module.Backend
